@@ -581,7 +581,7 @@ def check_sweep(case):
 
 
 def run(ctx):
-    ctx.run_hypothesis(sweep_cases(), check_sweep, max_examples=14 if ctx.quick else 600, salt=7, label='excerpt-sweeps')
+    ctx.run_hypothesis(sweep_cases(), check_sweep, max_examples=14 if ctx.quick else 320, salt=7, label='excerpt-sweeps')
     ctx.run_machine(ReadOnlyHistory, check_history, max_examples=20 if ctx.quick else 900, step_count=12, label='read-only')
     ctx.run_hypothesis(order_cases(), check_orders, max_examples=2 if ctx.quick else 60, salt=5, label='orders')
 
